@@ -25,7 +25,14 @@ def _worker(args):
         res = evocase.run_case(case, wd)
         mappedB = {d["hermesType"] for d in case["cdmB"].values()}
         pending_unmapped = any(q["remote"] is not None and q["remote"][1] not in mappedB for q in res["snapA"]["queue"])
-        return evocase.analyse(case, res), evocase.step_gallina(case, res), (evocase.lifecycle_has_readd(res), pending_unmapped), None
+        # a handler failed while the client was purging a local type that left its datamodel
+        failed_purge = any(c.get("out") not in (None, "ok") and c["h"].endswith("_removed")
+                           and "_".join(c["h"].split("_")[1:-1]) not in case["cdmB"] for c in res["evolved_calls"])
+        # a primary key moves while the queue holds the (already simulated) removal of an object of that type
+        moved = [e[1] for e in case["edits"] if e[0] == "move_pkey"]
+        removal_at_move = bool(moved) and len(res["snaps"]) > 2 and any(
+            q["remote"] is not None and q["remote"][0] == "removed" and q["remote"][1] in moved for q in res["snaps"][-2]["queue"])
+        return evocase.analyse(case, res), evocase.step_gallina(case, res), (evocase.lifecycle_has_readd(res), pending_unmapped, failed_purge, removal_at_move), None
     except Exception:
         return None, None, None, traceback.format_exc()
 
@@ -43,7 +50,7 @@ def run(ctx):
                                 typ="ecase", checker="check_ecases", shard=40)
     violations, corr = [], []
     hist = {"edits": {}, "cases_with_failures": 0, "cases_without_edit": 0, "three_phase_cases": 0}
-    for i, (c, (viol, g, (readd, pending_unmapped), _)) in enumerate(zip(cases, res)):
+    for i, (c, (viol, g, (readd, pending_unmapped, failed_purge, removal_at_move), _)) in enumerate(zip(cases, res)):
         for e in c["edits"]:
             hist["edits"][e[0]] = hist["edits"].get(e[0], 0) + 1
         hist["cases_with_failures"] += c["p_fail"] > 0
@@ -60,7 +67,12 @@ def run(ctx):
                                                             "queue-not-drained", "client-raises"}
             f27 = pending_unmapped and set(kinds) <= {"local-data-differ-from-fresh-deployment", "target-differs-from-fresh-deployment",
                                                         "queue-not-drained", "client-raises"}
-            violations.append({"sig": "F27-type-unmapped-with-pending-queue-entries" if f27 else "F5-readd-while-removal-queued" if f5 else None,
+            f28 = failed_purge and set(kinds) <= {"local-data-differ-from-fresh-deployment", "target-differs-from-fresh-deployment",
+                                                    "queue-not-drained", "client-raises"}
+            f29 = removal_at_move and set(kinds) <= {"local-data-differ-from-fresh-deployment", "target-differs-from-fresh-deployment",
+                                                       "queue-not-drained", "client-raises"}
+            violations.append({"sig": "F29-key-move-with-queued-removal" if f29 else "F28-handler-failure-while-purging-a-removed-type" if f28 else
+                               "F27-type-unmapped-with-pending-queue-entries" if f27 else "F5-readd-while-removal-queued" if f5 else None,
                                "what": "; ".join(WHAT.get(k, k) for k in kinds) + f" (case {i}, edits {c['edits']})", **rep})
         elif not c_ok:
             corr.append({"what": f"corr_schema_step: events sent ahead of the new schema != schema_step on case {i} (edits {c['edits']})", **rep})
